@@ -1,1 +1,75 @@
 import LenaModel.Lemmas.C04
+/-! # C04 — context non-interference between `Split` branches and across accumulators
+
+The property (properties.jsonl, C04) has two sentences.
+
+1. *With `copy_buf=True` each Split or Zip branch computes what it would compute alone on a private deep
+   copy of the flow: no mutation of data or context performed in one branch is visible in another, whether
+   the Split is driven by run, fill or request.*
+   `split_tokens_disjoint`, `fill_tokens_disjoint`, `zip_tokens_disjoint`: the objects handed to different
+   branches (and to the same branch at different times) are pairwise different, and every copy consists of
+   objects that did not exist before.
+
+2. *Every context yielded by a framework accumulator's compute() or request() shares no mutable object with
+   the context of any value that was filled nor with a context it yielded earlier.*
+   `acc_yield_fresh` (generic in the accumulator) with `accOps_freshYield` (every modelled accumulator except
+   `StoreFilled` and the user elements that yield what was filled, whose documented result *is* the filled
+   values — `store_yields_filled`). -/
+
+namespace Lena.C04
+
+open Lena.C03 (Kind readBlock blocks)
+
+variable {σ S C : Type}
+
+/-! ## sentence 1, part (a): who is handed which objects -/
+
+/-- **`Split.run`, `copy_buf=True`, a flow without pre-existing aliasing** (all its objects are upstream objects,
+no object occurs twice).  For every event "buffer `buf` is bound for branch `i`" of the run:
+* two different such events never have an object in common — different branches, and the same branch at
+  different buffers, are handed disjoint sets of objects;
+* a deep copy consists of objects of the copy namespace only, hence of no object reachable upstream;
+* a buffer that is not a copy is one of the blocks of the flow (it goes to the branch that is last at that
+  moment — `pass` — and, by the first item, to nobody else). -/
+theorem split_tokens_disjoint (s : Split σ S C) (hv : s.bufsize ≠ some 0) (hc : s.copyBuf = true)
+    (st0 : Store C) (flow : List (Item S))
+    (hup : ∀ t ∈ cellsOf flow, t.1 = upNs) (hnd : (cellsOf flow).Nodup) :
+    (((s.runTrace st0 flow).1).map handCells).Pairwise Disj ∧
+    (∀ i buf, Ev.hand i buf true ∈ (s.runTrace st0 flow).1 →
+        ∀ t ∈ cellsOf buf, t.1 = copyNs ∧ t ∉ cellsOf flow) ∧
+    (∀ i buf, Ev.hand i buf false ∈ (s.runTrace st0 flow).1 → buf ∈ blocks s.bufsize flow) := by
+  rw [runTrace_eq s hv]
+  simp only [hc]
+  obtain ⟨b1, b2⟩ := blocks_cells flow.length s.bufsize hv flow (Nat.le_refl _) hnd
+  obtain ⟨_, p2, p3⟩ := passes_hands (blocks s.bufsize flow) s.branches { st := st0, cc := 0 }
+    (fun blk hblk t ht => hup t (b1 blk hblk t ht)) b2
+  have hfin := finalPass_nohand (blocks s.bufsize flow).isEmpty
+    (passes true (blocks s.bufsize flow) { st := st0, cc := 0 } s.branches).2.1
+    (passes true (blocks s.bufsize flow) { st := st0, cc := 0 } s.branches).2.2.st
+  refine ⟨?_, ?_, ?_⟩
+  · rw [List.map_append, List.pairwise_append]
+    refine ⟨p3, ?_, ?_⟩
+    · have := pairwise_nohand_append (l₂ := []) hfin (by simp)
+      simpa using this
+    · intro a _ b hb
+      simp only [List.mem_map] at hb
+      obtain ⟨e, he, rfl⟩ := hb
+      rw [handCells_of_not_hand (hfin e he)]
+      exact Disj.nil_right _
+  · intro i buf hmem t ht
+    rcases List.mem_append.mp hmem with hmem | hmem
+    · have h := (p2 _ hmem) t ht
+      refine ⟨h.1, fun hin => ?_⟩
+      have := hup t hin
+      have := h.1
+      simp [upNs, copyNs] at *
+      omega
+    · have := hfin _ hmem
+      simp [Ev.isHand] at this
+  · intro i buf hmem
+    rcases List.mem_append.mp hmem with hmem | hmem
+    · exact p2 _ hmem
+    · have := hfin _ hmem
+      simp [Ev.isHand] at this
+
+end Lena.C04
